@@ -146,6 +146,8 @@ def replay(cases_path, out_path):
                 texts.append(hdr)
             else:
                 texts.append([pick(cls, ri * 3 + ci) for ci, cls in enumerate(r)])
+        if n % 6 == 0 and texts and texts[0] and texts[0][0].strip() != "":
+            texts[0][0] = "\ufeff" + texts[0][0]          # the file's very first character is U+FEFF: part of that cell, verbatim
         # a cell text must not contain the chosen delimiter unless it is a "quoted" class (csv quoting handles both)
         quoting = [csv.QUOTE_MINIMAL, csv.QUOTE_ALL][(n // 4) % 2]
         lineterm = ["\n", "\r\n"][(n // 8) % 2]
